@@ -4,7 +4,8 @@
 From Coq Require Import ZArith List Bool.
 Import ListNotations.
 Require Import Grist.Model.ActionLog Grist.Model.ActionLogEnc Grist.Proofs.ActionLog_proofs Grist.Proofs.ActionLog_calc
-  Grist.Proofs.ActionLog_stage3 Grist.Proofs.ActionLogEnc_laws Grist.Props.C01.
+  Grist.Proofs.ActionLog_stage3 Grist.Proofs.ActionLogEnc_laws
+  Grist.Model.DocEffects GristGen.DocActions_gen Grist.Proofs.DocActions_bridge Grist.Props.C01.
 Open Scope Z_scope.
 
 (* Full statement, for a class `wf_events` of event lists: after the bundle has been undone, replaying its
@@ -132,3 +133,12 @@ Proof.
   split; [vm_compute; reflexivity|]. split; [reflexivity|]. split; [vm_compute; reflexivity|].
   split; vm_compute; reflexivity.
 Qed.
+
+(* The code that decides what ends up in the stored list and how it is trimmed, regenerated from /repo on every run (see
+   C01_code_effects_bridge): the summary calls of every doc action in order (ReplaceTableData: remove_records BEFORE
+   add_records), the stored updates of _changes_to_actions, the per-list checkpoint of Engine._undo_to_checkpoint. *)
+Theorem C03_code_effects_bridge : gen_effects = model_effects.
+Proof. exact gen_effects_bridge. Qed.
+
+Theorem C03_code_glue_bridge : gen_skeletons = model_skeletons.
+Proof. exact gen_skeletons_bridge. Qed.
